@@ -721,6 +721,7 @@ func main() {
 			{"+", col("decimal(65,30)", "99999999999999999999999999999999999.999999999999999999999999999999"), col("decimal(65,30)", "0.000000000000000000000000000001")},
 			{"+", null, lit("1")}, {"/", lit("1"), null},
 			{"*", col("decimal(30,28)", "52.9999999999999999999999999999"), lit("30.00000")}, {"-", lit("-9223372036854775808"), lit("0.5")},
+			{"/", lit("95.99999"), lit("-0.5513805650")},
 			{"abs", col("i8", "-128"), null}, {"abs", col("i16", "-32768"), null}, {"abs", col("i32", "-2147483648"), null},
 			{"abs", col("i64", "-9223372036854775808"), null}, {"abs", col("i24", "-8388608"), null}, {"abs", col("u64", "18446744073709551615"), null},
 			{"abs", col("decimal(10,2)", "-1.50"), null}, {"abs", lit("-128"), null}, {"sign", col("i64", "-9223372036854775808"), null},
